@@ -8,3 +8,8 @@ pub mod c02 {
     use super::*;
     include!("c02.rs");
 }
+pub mod c03 {
+    #[allow(unused_imports)]
+    use super::*;
+    include!("c03.rs");
+}
